@@ -4,10 +4,12 @@ logging.getLogger('asyncio').setLevel(logging.CRITICAL)      # cancelled gather 
 from .. import proto
 from ..proto import enc
 from ..engine import Finding
+from . import _c19x as X
 
 ID = 'C19'
 TITLE = 'container lifting maps leaf-wise, preserves shape, and is schedule independent'
-LEAN_FILES = ['Basic', 'Lift', 'Zip', 'Waiter', 'LiftDriver', 'WaiterDriver', 'LiftLemmas', 'ZipLemmas', 'WaiterLemmas', 'ResDec', 'C19']
+LEAN_FILES = ['Basic', 'Lift', 'Zip', 'Waiter', 'LiftDriver', 'WaiterDriver', 'LiftLemmas', 'ZipLemmas', 'WaiterLemmas', 'ResDec', 'C19',
+              'LiftX', 'LiftXDriver', 'Txt', 'LiftXLemmas', 'TxtLemmas', 'WaiterF', 'WaiterFDriver', 'WaiterFLemmas']
 RULE = ('distinct protocol lines on which the implementation returned a value and whose looped argument is a non-empty container '
         '(lift), whose arguments hold at least one sequence (zipper/lens/as_list/as_tuple), or whose structure holds at least one '
         'awaitable (waiter; every completion order is a distinct line)')
@@ -349,6 +351,9 @@ def generate(rng, tier):
         yield c
     for c in gen_waiter(rng, tier):
         yield c
+    # model extension: dict subclasses, pandas / numpy branches, closed text helpers, failing awaitables
+    for c in X.generate(rng, tier):
+        yield c
 
 
 # ---------------------------------------------------------------- implementation runner
@@ -445,6 +450,8 @@ def lib_leaf(name):
 def run_line(state, sx):
     import pyg_base
     model, op, args = sx[0], sx[1], sx[2:]
+    if model == 'liftx':
+        return X.run_line(sx)
     if model == 'waiter':
         evs = [(int(e[1].split(':')[1]), proto.dec(e[2])) for e in args[1][1:]]
         done, res = run_waiter(args[0], evs)
@@ -637,6 +644,8 @@ def lib_expected(line, mr):
 
 
 def compare(case, i, line, ir, mr):
+    if line.startswith('(liftx '):
+        return X.compare(line, ir, mr)
     if line.startswith('(lift lib '):
         exp = lib_expected(line, mr)
         if proto.same_reply(ir, exp, numeric=False):
@@ -658,6 +667,8 @@ def nontrivial(line, reply):
     if not reply.startswith('ok'):
         return False
     sx = proto.parse(line)
+    if sx[0] == 'liftx':
+        return X.nontrivial(line, reply)
     if sx[0] == 'waiter':
         return '(A ' in line
     if sx[1] in ('call', 'callx'):
